@@ -198,6 +198,16 @@ def check_index(interp, v, raw, numba, node):
         qual = interp_cur_qual(interp)
         ctx.prove(ok, f'{qual}.subscript.in-bounds', {'at': _subs_id(interp, node)})
         return raw
+    if ctx.pure:
+        # contract clauses are total: an index outside the array denotes an unspecified element (the quantifier's
+        # range guard is in scope while its body is evaluated, so the sign of the index is usually decided here,
+        # which keeps the select terms free of if-then-else and the quantifier triggers usable)
+        if isinstance(raw, Sym) and raw.k == 'int':
+            if not ctx.feasible(raw.t < 0):
+                return raw
+            if not ctx.feasible(raw.t >= 0):
+                return ops.arith('+', n, raw)
+        return norm_index(raw, n)
     i = norm_index(raw, n)
     if not ctx.branch(in_range(i, 0, n)):
         raise RaiseSignal('IndexError', 'index out of bounds')
@@ -214,7 +224,7 @@ def arr_getitem(interp, v, idx, numba, node):
         start, stop = slice_bounds(idx, v.n)
         ln = slice_len(start, stop)
         return Arr(ln, (lambda k, fn=v.fn, start=start: fn(ops.arith('+', k, start))), np=v.np, cols=v.cols,
-                   view=v.np)
+                   view=v.np, prov=('slice', v.snap(), start))
     if isinstance(idx, tuple):
         if v.cols is None:
             raise RaiseSignal('IndexError', 'too many indices')
@@ -228,8 +238,10 @@ def arr_getitem(interp, v, idx, numba, node):
             if isinstance(r, SliceVal):
                 start, stop = slice_bounds(r, v.n)
                 ln = slice_len(start, stop)
+                base = Arr(ln, (lambda k, fn=v.fn, start=start: fn(ops.arith('+', k, start))), np=True, cols=v.cols,
+                           prov=('slice', v.snap(), start))
                 return Arr(ln, (lambda k, fn=v.fn, start=start, c=c: fn(ops.arith('+', k, start)).e[c]), np=True,
-                           view=True)
+                           view=True, prov=('rowmap', (lambda row, c=c: row.e[c]), base))
             i = check_index(interp, v, r, numba, node)
             return v.fn(i).e[c]
         if isinstance(c, SliceVal) and c.start is None and c.stop is None and c.step is None:
@@ -339,6 +351,8 @@ def arr_setitem(interp, v, idx, val, numba, node):
     from .interp import SliceVal
     ctx = interp.ctx
     old = v.fn
+    prov0 = v.prov
+    v.prov = None       # re-established below for the single-row store
     if isinstance(idx, SliceVal):
         start, stop = slice_bounds(idx, v.n)
         ln = slice_len(start, stop)
@@ -421,7 +435,10 @@ def arr_setitem(interp, v, idx, val, numba, node):
                 val = val.e[0]
             else:
                 raise RaiseSignal('ValueError', 'setting an array element with a sequence')
+        before = v.snap()
+        before.prov = prov0
         v.fn = lambda k, old=old, i=i, val=val: _sel(ops.equal(k, i), val, old(k))
+        v.prov = ('store', before, i, val)
         return
     raise OutOfSubset(f'array store index {kind_of(idx)}')
 
@@ -476,7 +493,10 @@ def elementwise2(interp, f, a, b):
                     raise OutOfSubset('length-1 broadcast between arrays')
                 raise RaiseSignal('ValueError', 'operands could not be broadcast together')
         if a.cols is None:
-            return Arr(a.n, (lambda k, fa=a.fn, fb=b.fn: f(fa(k), fb(k))), np=True)
+            prov = None
+            if a.prov and b.prov and a.prov[0] == 'rowmap' and b.prov[0] == 'rowmap' and same_base(a.prov[2], b.prov[2]):
+                prov = ('rowmap', (lambda row, g1=a.prov[1], g2=b.prov[1]: f(g1(row), g2(row))), a.prov[2])
+            return Arr(a.n, (lambda k, fa=a.fn, fb=b.fn: f(fa(k), fb(k))), np=True, prov=prov)
         return Arr(a.n, (lambda k, fa=a.fn, fb=b.fn: Vec([f(x, y) for x, y in zip(fa(k).e, fb(k).e)])), np=True,
                    cols=a.cols)
     if isinstance(a, Arr) and isinstance(b, Vec) or isinstance(b, Arr) and isinstance(a, Vec):
@@ -491,11 +511,13 @@ def elementwise2(interp, f, a, b):
     if isinstance(a, Arr):
         if a.cols is not None:
             return Arr(a.n, (lambda k, fn=a.fn: Vec([f(x, b) for x in fn(k).e])), np=True, cols=a.cols)
-        return Arr(a.n, (lambda k, fn=a.fn: f(fn(k), b)), np=True)
+        prov = ('rowmap', (lambda row, g=a.prov[1]: f(g(row), b)), a.prov[2]) if a.prov and a.prov[0] == 'rowmap' else None
+        return Arr(a.n, (lambda k, fn=a.fn: f(fn(k), b)), np=True, prov=prov)
     if isinstance(b, Arr):
         if b.cols is not None:
             return Arr(b.n, (lambda k, fn=b.fn: Vec([f(a, y) for y in fn(k).e])), np=True, cols=b.cols)
-        return Arr(b.n, (lambda k, fn=b.fn: f(a, fn(k))), np=True)
+        prov = ('rowmap', (lambda row, g=b.prov[1]: f(a, g(row))), b.prov[2]) if b.prov and b.prov[0] == 'rowmap' else None
+        return Arr(b.n, (lambda k, fn=b.fn: f(a, fn(k))), np=True, prov=prov)
     return f(a, b)
 
 
@@ -561,6 +583,112 @@ def _reduction(interp, kind, a, lo=None, hi=None):
     return r
 
 
+def same_base(x, y):
+    """two array snapshots denote the same array (same closure, same length, same offset chain)"""
+    if x is y:
+        return True
+    if x.fn is y.fn and ops.equal(x.n, y.n) is True:
+        return True
+    if x.prov and y.prov and x.prov[0] == 'slice' and y.prov[0] == 'slice':
+        return same_base(x.prov[1], y.prov[1]) and ops.equal(x.prov[2], y.prov[2]) is True and ops.equal(x.n, y.n) is True
+    return False
+
+
+def _prefix_uf(interp, A, g):
+    """prefix-sum function P of the summand g(A[k]): P(hi) - P(lo) = sum over [lo, hi).  One uninterpreted function per
+    syntactically distinct summand (congruence); step axioms are instantiated where a rewrite splits a range."""
+    ctx = interp.ctx
+    probe = g(A.fn(Sym(_CANON, 'int')))
+    key = ('prefix', z3.simplify(z3real(probe)).sexpr())
+    cache = ctx.globals.setdefault('__reductions__', {})
+    if key not in cache:
+        cache[key] = z3.Function(f'P!{len(cache)}', z3.IntSort(), z3.RealSort())
+    return cache[key]
+
+
+def _step_axiom(interp, A, g, j, depth=0):
+    """instantiate P(j+1) = P(j) + g(A[j]) for the prefix-sum functions of the base arrays under A (the recurrence is
+    consistent for every integer j, so instances are added unconditionally)"""
+    prov = A.prov
+    if depth > 8:
+        return
+    if prov is None or prov[0] not in ('slice', 'rowmap', 'concat', 'delete', 'store', 'const'):
+        P = _prefix_uf(interp, A, g)
+        jt = z3num(j)
+        interp.ctx.s.add(P(jt + 1) == P(jt) + z3real(g(A.fn(j))))
+        return
+    k = prov[0]
+    if k == 'slice':
+        _step_axiom(interp, prov[1], g, ops.arith('+', j, prov[2]), depth + 1)
+    elif k == 'rowmap':
+        _step_axiom(interp, prov[2], (lambda row, g=g, g2=prov[1]: g(g2(row))), j, depth + 1)
+    elif k == 'concat':
+        _step_axiom(interp, prov[1], g, j, depth + 1)
+        _step_axiom(interp, prov[2], g, ops.arith('-', j, prov[1].n), depth + 1)
+    elif k == 'delete':
+        _step_axiom(interp, prov[1], g, j, depth + 1)
+        _step_axiom(interp, prov[1], g, ops.arith('+', j, 1), depth + 1)
+    elif k == 'store':
+        _step_axiom(interp, prov[1], g, j, depth + 1)
+
+
+def sum_range(interp, A, g, lo, hi):
+    """sum of g(A[k]) for lo <= k < hi (hi >= lo is the caller's duty), rewritten along A's provenance; the axioms used are
+    those of finite sums: empty range, split of a range, one-element range."""
+    used('numpy.sum (finite-sum axioms: split, single element, congruence)')
+    prov = A.prov
+    mn, mx = ops.vmin, ops.vmax
+    if isinstance(lo, int) and isinstance(hi, int) and hi - lo <= 32:
+        r = Fraction(0) if True else 0
+        for k in range(lo, hi):
+            r = ops.arith('+', r, g(A.fn(k)))
+        return r
+    if prov is None:
+        P = _prefix_uf(interp, A, g)
+        return mk_num(P(z3num(hi)) - P(z3num(lo)))
+    kind = prov[0]
+    if kind == 'const':
+        return ops.arith('*', g(prov[1]), ops.arith('-', hi, lo))
+    if kind == 'slice':
+        off = prov[2]
+        return sum_range(interp, prov[1], g, ops.arith('+', lo, off), ops.arith('+', hi, off))
+    if kind == 'rowmap':
+        g2 = prov[1]
+        return sum_range(interp, prov[2], (lambda row, g=g, g2=g2: g(g2(row))), lo, hi)
+    if kind == 'concat':
+        A1, A2 = prov[1], prov[2]
+        na = A1.n
+        s1 = sum_range(interp, A1, g, mn(lo, na), mn(hi, na))
+        s2 = sum_range(interp, A2, g, mx(ops.arith('-', lo, na), 0), mx(ops.arith('-', hi, na), 0))
+        return ops.arith('+', s1, s2)
+    if kind == 'delete':
+        A1, j = prov[1], prov[2]
+        _step_axiom(interp, A1, g, j)
+        s1 = sum_range(interp, A1, g, mn(lo, j), mn(hi, j))
+        s2 = sum_range(interp, A1, g, ops.arith('+', mx(lo, j), 1), ops.arith('+', mx(hi, j), 1))
+        if A1.prov is not None:
+            # general identity: sum(delete(A, j))[lo,hi) = sum(A)[lo, hi+1) - g(A[j]) when lo <= j <= hi
+            inside = ops.land(ops.compare('<=', lo, j), ops.compare('<=', j, hi))
+            whole = sum_range(interp, A1, g, lo, ops.arith('+', hi, 1))
+            alt = ops.arith('-', whole, g(A1.fn(j)))
+            both = ops.arith('+', s1, s2)
+            return both if inside is False else (alt if inside is True else ops.ite(inside.t, alt, both))
+        return ops.arith('+', s1, s2)
+    if kind == 'store':
+        A1, i, val = prov[1], prov[2], prov[3]
+        _step_axiom(interp, A1, g, i)
+        base = sum_range(interp, A1, g, lo, hi)
+        inside = ops.land(ops.compare('<=', lo, i), ops.compare('<', i, hi))
+        delta = ops.arith('-', g(val), g(A1.fn(i)))
+        if inside is True:
+            return ops.arith('+', base, delta)
+        if inside is False:
+            return base
+        return ops.arith('+', base, ops.ite(inside.t, delta, Fraction(0)))
+    P = _prefix_uf(interp, A, g)
+    return mk_num(P(z3num(hi)) - P(z3num(lo)))
+
+
 def reduce_arr(interp, kind, a):
     used(f'numpy.{kind} (reduction)')
     if isinstance(a, Vec):
@@ -577,10 +705,10 @@ def reduce_arr(interp, kind, a):
             raise OutOfSubset('reduction over a 2-D array')
         if isinstance(a.n, int):
             return reduce_arr(interp, kind, Vec([a.fn(k) for k in range(a.n)]))
+        if kind == 'sum':
+            return sum_range(interp, a, (lambda x: x), 0, a.n)
         empty = ops.equal(a.n, 0)
         if interp.ctx.branch(empty):
-            if kind == 'sum':
-                return Fraction(0)
             raise RaiseSignal('ValueError', 'zero-size array to reduction')
         return _reduction(interp, kind, a)
     if isinstance(a, (list, tuple)):
@@ -1071,22 +1199,32 @@ def _b_setattr(i, a, k):
 def _b_forall(i, a, k):
     """forall(lambda j: body, lo, hi): contract-language quantifier over lo <= j < hi."""
     f, lo, hi = a
-    q = ops.fresh_qvar('j')
-    body = ops.truthy(i.call(f, [Sym(q, 'int')]))
-    rng = z3.And(q >= z3num(lo), q < z3num(hi))
     if isinstance(lo, int) and isinstance(hi, int) and hi - lo <= 64:
         r = True
         for j in range(lo, hi):
             r = ops.land(r, ops.truthy(i.call(f, [j])))
         return r
+    q = ops.fresh_qvar('j')
+    rng = z3.And(q >= z3num(lo), q < z3num(hi))
+    i.ctx.s.push()
+    i.ctx.s.add(rng)
+    try:
+        body = ops.truthy(i.call(f, [Sym(q, 'int')]))
+    finally:
+        i.ctx.s.pop()
     return mk_bool(z3.ForAll([q], z3.Implies(rng, z3bool(body))))
 
 
 def _b_exists(i, a, k):
     f, lo, hi = a
     q = ops.fresh_qvar('j')
-    body = ops.truthy(i.call(f, [Sym(q, 'int')]))
     rng = z3.And(q >= z3num(lo), q < z3num(hi))
+    i.ctx.s.push()
+    i.ctx.s.add(rng)
+    try:
+        body = ops.truthy(i.call(f, [Sym(q, 'int')]))
+    finally:
+        i.ctx.s.pop()
     return mk_bool(z3.Exists([q], z3.And(rng, z3bool(body))))
 
 
@@ -1243,8 +1381,8 @@ def _np_filled(i, n, cols, val):
     if i.ctx.branch(neg):
         raise RaiseSignal('ValueError', 'negative dimensions are not allowed')
     if cols is None:
-        return Arr(n, (lambda kk, val=val: val), np=True)
-    return Arr(n, (lambda kk, val=val, cols=cols: Vec([val] * cols)), np=True, cols=cols)
+        return Arr(n, (lambda kk, val=val: val), np=True, prov=('const', val))
+    return Arr(n, (lambda kk, val=val, cols=cols: Vec([val] * cols)), np=True, cols=cols, prov=('const', Vec([val] * cols)))
 
 
 def _np_full(i, a, k):
@@ -1281,7 +1419,8 @@ def _np_concatenate(i, a, k):
     for b in arrs[1:]:
         n = ops.arith('+', r.n, b.n)
         r = Arr(n, (lambda kk, fa=r.fn, fb=b.fn, na=r.n: _sel(ops.compare('<', kk, na), lambda: fa(kk),
-                                                              lambda: fb(ops.arith('-', kk, na)))), np=True, cols=cols)
+                                                              lambda: fb(ops.arith('-', kk, na)))), np=True, cols=cols,
+                prov=('concat', r.snap(), b.snap()))
     return r
 
 
@@ -1299,7 +1438,8 @@ def _np_delete(i, a, k):
         raise RaiseSignal('IndexError', 'index out of bounds for np.delete')
     n = ops.arith('-', arr.n, 1)
     return Arr(n, (lambda kk, fn=arr.fn, j=j: _sel(ops.compare('<', kk, j), lambda: fn(kk),
-                                                   lambda: fn(ops.arith('+', kk, 1)))), np=True, cols=arr.cols)
+                                                   lambda: fn(ops.arith('+', kk, 1)))), np=True, cols=arr.cols,
+               prov=('delete', arr.snap(), j))
 
 
 def _np_floor(i, a, k):
@@ -1362,6 +1502,25 @@ def _np_where(i, a, k):
         c, x, y = a
         return elementwise2(i, lambda cc, xy: xy, c, elementwise2(i, lambda p, q: (p, q), x, y)) if False else \
             _where3(i, c, x, y)
+    if len(a) == 1 and isinstance(a[0], Arr) and a[0].cols is None:
+        # np.where(mask) -> (indices of the true entries, ascending,). Axiomatised by its length being positive iff a
+        # true entry exists, and its first element being the first such index.
+        used('numpy.where(mask) (first-match axioms)')
+        c = a[0]
+        ctx = i.ctx
+        cnt = ctx.fresh_int('where.count')
+        j = ctx.fresh_int('where.first')
+        q = ops.fresh_qvar('w')
+        n = z3num(c.n)
+        cj = z3bool(ops.truthy(c.fn(j)))
+        cq = z3bool(ops.truthy(c.fn(Sym(q, 'int'))))
+        ctx.s.add(cnt.t >= 0, cnt.t <= n)
+        ctx.s.add(z3.Implies(cnt.t > 0, z3.And(j.t >= 0, j.t < n, cj,
+                                               z3.ForAll([q], z3.Implies(z3.And(q >= 0, q < j.t), z3.Not(cq))))))
+        ctx.s.add(z3.Implies(cnt.t == 0, z3.ForAll([q], z3.Implies(z3.And(q >= 0, q < n), z3.Not(cq)))))
+        rest = ctx.fresh_arr('where.rest', n=cnt, kind='int')
+        idx = Arr(cnt, (lambda kk, j=j, rest=rest: _sel(ops.equal(kk, 0), j, lambda: rest.fn(kk))), np=True)
+        return (idx,)
     raise OutOfSubset('np.where with one argument')
 
 
